@@ -333,6 +333,56 @@ func RunC18(c *Ctx, r *Report) {
 		}
 	}
 
+	// ---- rule 4b: the same for key derivation and Diffie-Hellman: nonces, shared secrets and keys handed in (or
+	// kept in the SA object after being handed in) are read only - nothing is written through them, copied into
+	// them or appended onto them (an append onto an input with spare capacity writes the caller's memory, which
+	// two derivations from one nonce buffer would race on)
+	var droots []*ssa.Function
+	for _, spec := range [][3]string{{"security", "IKESAKey", "GenerateKeyForIKESA"}, {"security", "ChildSAKey", "GenerateKeyForChildSA"}} {
+		if fn := c.Method(spec[0], spec[1], spec[2]); fn != nil {
+			droots = append(droots, fn)
+		}
+	}
+	for _, spec := range [][2]string{{"security", "NewIKESAKey"}, {"security", "NewChildSAKeyByProposal"}, {"security/lib", "PrfPlus"}, {"security", "CalculateDiffieHellmanMaterials"}} {
+		if fn := c.Func(spec[0], spec[1]); fn != nil {
+			droots = append(droots, fn)
+		}
+	}
+	kscope := c.Reachable(droots...)
+	kr := c.Alias(&AliasCfg{
+		Scope: kscope,
+		Source: func(fn *ssa.Function, v ssa.Value) bool {
+			p, ok := v.(*ssa.Parameter)
+			return ok && isByteSlice(p.Type()) && !c.eligibleForCallerFacts(fn)
+		},
+	})
+	r.Rule(prefix+"derive.no-input-write", "key derivation and Diffie-Hellman never write through, copy into, or append onto memory derived from a []byte parameter (directly or after it was kept in the SA object)", 3)
+	kw := map[*ssa.Function][]AliasSite{}
+	for _, w := range kr.WritesThrough {
+		kw[w.Fn] = append(kw[w.Fn], w)
+	}
+	for _, w := range kr.ExtArgs {
+		kw[w.Fn] = append(kw[w.Fn], w)
+	}
+	for _, fn := range kscope {
+		key := c.FuncName(fn)
+		if ws := kw[fn]; len(ws) > 0 {
+			var d []string
+			for _, w := range ws {
+				d = append(d, w.What+" at "+c.InstrPos(w.Ins))
+			}
+			r.bad(prefix+"derive.no-input-write", key, c.Pos(fn.Pos()), strings.Join(d, "; "))
+		} else {
+			n := 0
+			for _, lv := range kr.Tainted[fn] {
+				if lv == 2 {
+					n++
+				}
+			}
+			r.ok(prefix+"derive.no-input-write", key, c.Pos(fn.Pos()), fmt.Sprintf("%d input-derived values, none used as a write target", n), n > 0)
+		}
+	}
+
 	// ---- rule 5: external globals ----
 	r.Rule(prefix+"external-globals", "the only package-level variables of other packages that module code touches are on the frozen list (crypto/rand.Reader: concurrency-safe; io.EOF, binary.BigEndian: immutable)", 2)
 	allowedExt := map[string]string{
